@@ -107,5 +107,20 @@ pub fn run(out: &mut Out, rng: &mut Rng, thorough: bool) {
 			}
 		}
 	}
+	// xt's own TOML output of more than 2 MiB, fed back as a slice / mapped file
+	// (the 2 MiB cutoff of the TOML trial is for not-yet-buffered readers only).
+	let big = Val::Map((0..72_000).map(|i| (Val::Str(format!("k{i}")), Val::Str("xxxxxxxxxxxxxxxxxxxx".into()))).collect());
+	if let Some(js) = spell(Fmt::Json, &big, &Spelling::plain()) {
+		let produced = translate(&js, &Supply::Slice, Some(Fmt::Json), Fmt::Toml);
+		if produced.ok() && produced.output.len() > 2 * 1024 * 1024 {
+			let det = detect(&produced.output, &Supply::Slice);
+			out.eval("own_output_detected", "big-toml-slice", true);
+			if det != Ok(Some(Fmt::Toml)) {
+				out.fail("own_output_detected", "", format!("xt(json→toml) of a 72 000-entry table produced {} bytes of TOML which, as a slice, is detected as {:?}, not toml", produced.output.len(), det));
+			}
+		} else {
+			out.count("big_toml.not_produced");
+		}
+	}
 	let _ = Val::Null;
 }
